@@ -457,7 +457,7 @@ func (g *Gen) remoteTokenSpelling() string {
 	}
 }
 
-var domainPool = []uint32{0, 1, 3, 4, 5, 0xffffffff, 1<<31 - 1, 1 << 31, 256, 1 << 24}
+var domainPool = []uint32{0, 1, 3, 4, 5, 0xffffffff, 1<<31 - 1, 1 << 31, 256, 1 << 24, 1 << 16, 1<<16 + 1, 1<<16 - 1, 1<<16 + 3, 255, 1<<24 + 1, 0xff000000}
 
 func (g *Gen) domain() uint32 { return domainPool[g.pick(len(domainPool))] }
 
